@@ -35,7 +35,7 @@ M == "<missing>"          \* "this metadata key is not present" in a target desc
 RuleKeys == {"k1", "k2"}
 Rules == [key : RuleKeys, op : {"equals", "not_equals"}, args : {<<"a">>}]
          \cup [key : RuleKeys, op : {"exists", "not_exists"}, args : {<<>>}]
-         \cup [key : RuleKeys, op : {"in", "not_in"}, args : {<<"a", "c">>, <<>>}]
+         \cup [key : RuleKeys, op : {"in", "not_in"}, args : {<<"a", "c">>, <<"b", "a">>, <<>>}]   \* value lists as the operator wrote them, in any order
 RuleLists == {<<>>} \cup {<<r>> : r \in Rules} \cup {<<r1, r2>> : r1 \in Rules, r2 \in Rules}
 Scopes == {<<>>} \cup {<<p>> : p \in ScopePatterns}
 
